@@ -10,7 +10,7 @@
     Graphs: node ids pairwise distinct ([NoDup (node_ids g)], guaranteed by networkx); adjacency is symmetric by
     construction ([LGraph.adj]). *)
 From Coq Require Import List NArith ZArith Bool Arith Permutation.
-From SK Require Import lib.LGraph model.C12_Model proof.C12_Search proof.C12_Proof proof.C12_Prune.
+From SK Require Import lib.LGraph model.C12_Model proof.C12_Search proof.C12_Proof proof.C12_Prune proof.C12_Enum.
 Import ListNotations.
 
 (** ** 0. the specification: a common induced sub-graph mapping, written out.
@@ -233,3 +233,26 @@ Theorem C12_matchers_meaning :
   (edge_match_mtg [x] [y] = true <-> exists o, x = Some o /\ y = Some o).
 Proof. exact matchers_single. Qed.
 Print Assumptions C12_matchers_meaning.
+
+(** ** 9. the premise about networkx VF2, explicit.  [search_subgraphs_with enum] is _search_subgraphs with an ARBITRARY
+    enumerator in the place of GraphMatcher(host, pattern.subgraph(nodes)).subgraph_isomorphisms_iter(); the model's
+    search is the instance with the verified enumerator ([C12_model_is_instance]).  The search depends on the enumerator
+    only through the SET of results per k-subset: any [vf2] that returns, for every k-subset of the pattern's nodes,
+    the same set as the verified enumerator (any order, repetitions allowed) gives the same set of mappings, the same
+    last_size and the same number of matcher objects -- so theorems 1-7 hold for the search run with it. *)
+Theorem C12_model_is_instance :
+  forall (nm : option nattr -> option nattr -> bool) (em : eattr -> eattr -> bool) (pattern host : graph) (mcs : bool),
+  search_subgraphs nm em pattern host mcs = search_subgraphs_with (sub_isos nm em pattern host) pattern host mcs.
+Proof. exact search_subgraphs_is_with. Qed.
+Print Assumptions C12_model_is_instance.
+
+Theorem C12_vf2_premise :
+  forall (nm : option nattr -> option nattr -> bool) (em : eattr -> eattr -> bool) (pattern host : graph) (mcs : bool)
+         (vf2 : list N -> list mapping),
+  (forall k c, In c (combs (node_ids pattern) k) -> forall m, In m (vf2 c) <-> In m (sub_isos nm em pattern host c)) ->
+  (forall m, In m (fst (fst (search_subgraphs_with vf2 pattern host mcs))) <->
+             In m (fst (fst (search_subgraphs nm em pattern host mcs)))) /\
+  snd (fst (search_subgraphs_with vf2 pattern host mcs)) = snd (fst (search_subgraphs nm em pattern host mcs)) /\
+  snd (search_subgraphs_with vf2 pattern host mcs) = snd (search_subgraphs nm em pattern host mcs).
+Proof. exact vf2_premise. Qed.
+Print Assumptions C12_vf2_premise.
